@@ -51,4 +51,17 @@ Fixpoint wf_types_from (ts : list ty) (i : nat) : bool :=
   end.
 Definition wf_types (m : module) : bool := wf_types_from (types m) 0.
 
-Definition wf (m : module) : bool := wf_global_types m && wf_calls m && wf_types m.
+(** module-scope variables are named, with pairwise distinct names *)
+Fixpoint str_nodup (l : list string) : bool :=
+  match l with
+  | [] => true
+  | x :: t => negb (existsb (String.eqb x) t) && str_nodup t
+  end.
+Definition global_names (m : module) : list string :=
+  flat_map (fun g => match g_name g with Some n => [n] | None => [] end) (globals m).
+Definition wf_global_names (m : module) : bool :=
+  forallb (fun g => match g_name g with Some _ => true | None => false end) (globals m)
+  && str_nodup (global_names m).
+
+Definition wf (m : module) : bool :=
+  wf_global_types m && wf_calls m && wf_types m && wf_global_names m.
